@@ -32,6 +32,10 @@ def main():
         r = {"graph": hg(m.graph_), "embedding": h(m.embedding_), "n_jobs_after": m.n_jobs}
         if new is not None:
             r["transform"] = h(m.transform(new)); r["transform_again"] = h(m.transform(new))
+            if kw.get("output_metric", "euclidean") == "euclidean" and not kw.get("densmap"):
+                # other calls on the fitted model in between (they draw their own random numbers) must not change what transform returns
+                r["inverse"] = h(m.inverse_transform(m.embedding_[:4] + 0.01))
+                r["transform_after_inverse"] = h(m.transform(new))
         out[name] = r
     rec("exact_spectral_jobs-1", X, Y, n_jobs=-1)
     # warm process: an unrelated unseeded (parallel) fit first, then the same seeded fit with another n_jobs
